@@ -18,6 +18,9 @@
 #define TS 2
 #endif
 #define VF_FLAGS (VF_FLAG_REF | VF_FLAG_CONSTKEY)
+#ifndef KEYALIAS
+#define KEYALIAS 1
+#endif
 #define VF_KINDS 0x1F           /* children are scalars: null false true number string */
 #include "vf_tree.h"
 #define VF_INPUTS(X) VF_TREE_INPUTS(X) X(unsigned char, pkind, ) X(unsigned char, mode, ) X(int, which, ) X(unsigned char, idx, ) \
@@ -46,6 +49,7 @@ static int lower(int c) { return (c >= 'A' && c <= 'Z') ? c + 32 : c; }
 static int eq_cs(const char *a, const char *b) { size_t i; for (i = 0; i <= TS; i++) { if (a[i] != b[i]) return 0; if (a[i] == 0) return 1; } return 1; }
 static int uc(const char *p, size_t i) { return ((const unsigned char *)p)[i]; }
 static int eq_ci(const char *a, const char *b) { size_t i; for (i = 0; i <= TS; i++) { if (lower(uc(a, i)) != lower(uc(b, i))) return 0; if (a[i] == 0) return 1; } return 1; }
+static cJSON *find_key_ptr(const char *key, int cs) { unsigned i; for (i = 0; i < n; i++) if (kid[i]->string && (cs ? eq_cs(kid[i]->string, key) : eq_ci(kid[i]->string, key))) return kid[i]; return 0; }
 static int find_key(const char *key, int cs) { unsigned i; for (i = 0; i < n; i++) if (kid[i]->string && (cs ? eq_cs(kid[i]->string, key) : eq_ci(kid[i]->string, key))) return (int)i; return -1; }
 
 /* C06 structural check of the parent's child list against the model sequence */
@@ -258,12 +262,14 @@ int main(VF_MAIN_ARGS)
     }
 #elif OP == 18   /* queries */
     {
-        int which = IN.which; unsigned cnt = 0; cJSON *e; const char *key = key_arg(1, IN.idx % (K + 1)); int kci = find_key(key, 0), kcs = find_key(key, 1);
+        int which = IN.which; unsigned cnt = 0; cJSON *e; const char *key = key_arg(KEYALIAS, IN.idx % (K + 1)); cJSON *pci = find_key_ptr(key, 0), *pcs = find_key_ptr(key, 1), *pidx = 0;
+        for (cnt = 0; cnt < n; cnt++) if (which >= 0 && (unsigned)which == cnt) pidx = kid[cnt];
+        cnt = 0;
         VF_AP(6, cJSON_GetArraySize(parent) == (int)n, "C06 size query");
-        VF_AP(6, cJSON_GetArrayItem(parent, which) == ((which >= 0 && (unsigned)which < n) ? kid[which] : 0), "C06 index query");
-        VF_AP(6, cJSON_GetObjectItem(parent, key) == (kci >= 0 ? kid[kci] : 0), "C06 case-insensitive key query returns the first case-folded match");
-        VF_AP(6, cJSON_GetObjectItemCaseSensitive(parent, key) == (kcs >= 0 ? kid[kcs] : 0), "C06 case-sensitive key query returns the first exact match");
-        VF_AP(6, cJSON_HasObjectItem(parent, key) == (kci >= 0), "C06 membership query");
+        VF_AP(6, cJSON_GetArrayItem(parent, which) == pidx, "C06 index query");
+        VF_AP(6, cJSON_GetObjectItem(parent, key) == pci, "C06 case-insensitive key query returns the first case-folded match");
+        VF_AP(6, cJSON_GetObjectItemCaseSensitive(parent, key) == pcs, "C06 case-sensitive key query returns the first exact match");
+        VF_AP(6, cJSON_HasObjectItem(parent, key) == (pci != 0), "C06 membership query");
         VF_AP(6, cJSON_GetObjectItem(parent, 0) == 0 && cJSON_GetObjectItem(0, key) == 0 && cJSON_GetArraySize(0) == 0 && cJSON_GetArrayItem(0, 0) == 0, "C06 NULL arguments answer 'nothing'");
         cJSON_ArrayForEach(e, parent) { VF_AP(6, cnt < n && e == kid[cnt], "C06 iteration visits the children in order"); cnt++; }
         VF_AP(6, cnt == n, "C06 iteration visits every child");
